@@ -3,6 +3,7 @@ package main
 import (
 	"flag"
 	"fmt"
+	"go/ast"
 	"os"
 	"runtime/debug"
 	"sort"
@@ -46,6 +47,10 @@ func main() {
 			os.Exit(2)
 		}
 		c.Tier = *tier
+		if strings.HasPrefix(*dump, "loops:") {
+			dumpLoops(c, strings.TrimPrefix(*dump, "loops:"))
+			return
+		}
 		dumpStaged(c, *dump)
 		return
 	}
@@ -106,6 +111,7 @@ func main() {
 			}
 			outs := runControls(*repo, *tier, id, base)
 			outs = append(outs, runSeedReplays(*repo, *verif, id, base)...)
+			outs = append(outs, runBenignReplays(*repo, *verif, id, base)...)
 			counts := map[string]int{}
 			for _, o := range outs {
 				counts[o.Kind+":"+o.Outcome]++
@@ -150,6 +156,43 @@ func trimStack(b []byte) string {
 		lines = lines[:24]
 	}
 	return strings.Join(lines, "\n")
+}
+
+// dumpLoops prints the enumerated paths of every loop body (and of the whole body) of the functions whose name
+// contains the argument: a debugging aid for writing R4 rules.
+func dumpLoops(c *Ctx, name string) {
+	for _, f := range c.AllFuncs() {
+		if !strings.Contains(f.Name, name) {
+			continue
+		}
+		fmt.Println("==", f.Name)
+		ast.Inspect(f.Decl.Body, func(n ast.Node) bool {
+			var body *ast.BlockStmt
+			switch x := n.(type) {
+			case *ast.ForStmt:
+				body = x.Body
+			case *ast.RangeStmt:
+				body = x.Body
+			}
+			if body == nil {
+				return true
+			}
+			fmt.Println("-- loop at", c.pos(n.Pos()))
+			pe := newPathEnum(f.Pkg.TypesInfo)
+			paths, err := pe.Enumerate(body.List)
+			if err != nil {
+				fmt.Println("   error:", err)
+				return true
+			}
+			for i, p := range paths {
+				fmt.Printf("   path %d [%s] kind=%s\n", i, p.CondString(), p.Kind)
+				for _, e := range p.Effects {
+					fmt.Println("      ", e.String())
+				}
+			}
+			return true
+		})
+	}
 }
 
 func dumpStaged(c *Ctx, what string) {
